@@ -61,6 +61,8 @@ func (g *genState) pickSchema(idx int) schemaSpec {
 		return filt
 	case "c04":
 		return g.schemaC04(idx)
+	case "c03":
+		return g.schemaC03(idx)
 	case "c06":
 		g.vecMetric = "euclidean"
 		sc := schemaSpec{{path: "fv", kind: ixFlat, dim: g.dim, metric: "euclidean"}, {path: "txt", kind: ixText}, {path: "i", kind: ixInt},
@@ -112,6 +114,30 @@ func (g *genState) schemaC04(idx int) schemaSpec {
 	g.dim = dim
 	g.vecMetric = m
 	return schemaSpec{{path: "fv", kind: ixFlat, dim: dim, metric: m, q: q}, {path: "i", kind: ixInt}, {path: "tags", kind: ixStrArr, caseSens: true}}
+}
+
+func (g *genState) schemaC03(idx int) schemaSpec {
+	r := g.r
+	metrics := []string{"euclidean", "dot", "cosine"}
+	m := metrics[idx%3]
+	dim := []int{2, 3, 4, 8}[r.IntN(4)]
+	var q quantSpec
+	switch (idx / 3) % 5 {
+	case 2:
+		q = quantSpec{kind: 1, thr: []float32{0.5, 1.5, -0.5, 0}[r.IntN(4)], metric: []string{"hamming", "jaccard"}[r.IntN(2)]}
+	case 3:
+		q = quantSpec{kind: 2, trigger: r.IntN(9), metric: []string{"hamming", "jaccard"}[r.IntN(2)]}
+	case 4:
+		dim = []int{2, 4, 8}[r.IntN(3)]
+		q = quantSpec{kind: 3, ncent: 2 + r.IntN(3), nsub: 2, trigger: 4 + r.IntN(5)}
+	}
+	g.dim = dim
+	g.vecMetric = m
+	degree := []int{3, 4, 8, 32, 64}[r.IntN(5)]
+	search := []int{25, 30, 75}[r.IntN(3)]
+	alpha := []float32{1.1, 1.2, 1.5}[r.IntN(3)]
+	return schemaSpec{{path: "vec", kind: ixVamana, dim: dim, metric: m, search: search, degree: degree, alpha: alpha, q: q},
+		{path: "i", kind: ixInt}, {path: "tags", kind: ixStrArr, caseSens: true}}
 }
 
 func (g *genState) pick(ss []string) string { return ss[g.r.IntN(len(ss))] }
@@ -170,7 +196,7 @@ func (g *genState) genVec(dim int) []float32 {
 			v[i] = float32(g.r.IntN(17) - 8)
 		}
 		if g.r.IntN(6) == 0 { // duplicates of stored vectors: ties
-			if st := g.storedAt("fv"); len(st) > 0 {
+			if st := append(g.storedAt("fv"), g.storedAt("vec")...); len(st) > 0 {
 				c := st[g.r.IntN(len(st))]
 				if c.K == kArr && len(c.A) == dim {
 					for i := range v {
